@@ -110,7 +110,7 @@ class C22(Prop):
     ]
     unmodelled = [
         'bad_options reports of clear_broadcast / expire_broadcast',
-        'empty setting dictionaries, list-valued items, ext-trigger broadcasts',
+        'empty setting dictionaries, non-empty list values and durations, ext-trigger broadcasts',
         'the broadcast_events log table',
     ]
     rule = ('seeded random histories over 1-3 points (incl. "*", leading zeros, invalid), an inheritance tree of '
